@@ -121,6 +121,12 @@ EncPenaltyFrom(imgs, nq, j) ==
        IN OpAdd(OpScale(imgs[j].mu, OpMul(sh, sh, nq)), EncPenaltyFrom(imgs, nq, j - 1))
 EncPenaltyOK(iP, imgs, nq) == OpEq(iP, EncPenaltyFrom(imgs, nq, Len(imgs)))
 
+\* ---- fermionic generators (pool elements, rows of the excitation tables) judged on the Fock model -----------------
+\* [G, S] D = 0 on every determinant, S the FIRST-PRINCIPLES N, Sz (and S^2 where the pool is documented as spin adapted)
+FockGeneratorConserves(f, kinds, n, utd) ==
+  \A D \in Dets(n) : \A kind \in kinds :
+     VEq(ApplyOpVec(f, SpecApply(kind, VDet(D), n, utd)), SpecApply(kind, ApplyOpVec(f, VDet(D)), n, utd))
+
 \* ---- ansatz generators ----------------------------------------------------------------
 GeneratorCommutes(gen, sym, nq) == OpIsZero(OpCommutator(sym, gen, nq))
 
